@@ -39,18 +39,21 @@ ASSUMPTIONS = [
 MANIFEST = dict(
     category="proof",
     text=("Executable Gallina models of ParseDependency, CanonPackageName, parseMarker and markerExpr.Eval over the "
-          "regenerated target environment, with PEP 440 as an oracle; declarative PEP 508 spec (syntax trees, printer over "
-          "all white-space placements, packaging 26.3 evaluation). Theorems: parser/printer round trip for every "
-          "well-formed marker tree, agreement of Go evaluation with packaging on an explicit boolean domain, refutation "
-          "witnesses for every divergence class outside it (known findings), splitter round trip on normalised "
-          "observables, name normalisation = packaging's and idempotent on valid names, totality/no-panic and fuel bound. "
-          "Correspondence: Go vs extracted model on requirement strings, names, marker trees/values (8 repetitions for "
-          "map-order nondeterminism) and the guarded edge through the real resolver; direct oracle Go vs extracted spec "
-          "and vs packaging itself when available."),
+          "regenerated target environment and operator tables, with PEP 440 as an oracle; declarative PEP 508 spec (syntax "
+          "trees carrying their white space, printer, evaluation as packaging 26.3 and pip define it). Proved for all "
+          "inputs: the splitter reads back every printed requirement tree on the normalised observables (C16_split); name "
+          "normalisation equals packaging's and is idempotent on valid names; the marker parser reads back every printed "
+          "marker tree (C16_marker_roundtrip), independent of Go map order, within a proved fuel bound, and Eval cannot reach "
+          "its panic; Go evaluation equals packaging's on an explicit boolean domain (C16_marker_partial, under the C03 "
+          "interface hypothesis). The unrestricted evaluation statement is REFUTED by seven witness classes, all open known "
+          "findings replayed on the Go code each run. Tie: Go vs extracted model on requirement strings, names, marker "
+          "trees/values (8 repetitions for map-order nondeterminism) and the guarded edge through the real resolver over a "
+          "LocalClient; direct oracle Go vs extracted spec, and vs packaging itself when python3-vt is present."),
     note=("Trusted: Coq kernel (+vm_compute), gotables translator, extraction and driver.ml, Go harness, python "
           "generators/oracle, the hand transcription of packaging 26.3 in Spec/Pep508Spec.v (re-validated against packaging "
-          "when python3-vt exists, otherwise evidence says so). PEP 440 is an oracle (C02/C03). The model is validated by "
-          "execution, not verified against Go source."),
+          "on every generated case when python3-vt exists, otherwise evidence says so). PEP 440 is an oracle on both sides "
+          "(C02/C03). The model is validated by execution, not verified against Go source. Marker atoms have one variable "
+          "and one literal (literal-literal and variable-variable comparisons are outside the quantifier)."),
     technique="Rocq proof over a hand-written model + differential correspondence (extracted OCaml vs Go) + reference diff",
     design="8 C16")
 
@@ -191,6 +194,21 @@ def norm_go_req(v):
     return name, ex, cl, envt
 
 
+def same_split(a, b):
+    """correspondence on ParseDependency compares the projected observables of C16 (name, extras list,
+    specifier clauses, marker text without outer white space), not the raw fields"""
+    if a == b:
+        return True
+    try:
+        x, y = parse_sx(a), parse_sx(b)
+    except Exception:
+        return False
+    if x[0] != b"ok" or y[0] != b"ok":
+        return x[0] == y[0] and x[0] != b"ok"
+    nx, ny = norm_go_req(x), norm_go_req(y)
+    return nx[:3] == ny[:3] and nx[3].strip(b" \t") == ny[3].strip(b" \t")
+
+
 def replay_known(ctx):
     """Each open known finding is replayed on the Go code and must still fail as recorded."""
     for k in lib.load_known(ctx.pid):
@@ -232,6 +250,33 @@ def run(ctx):
     check_malformed(ctx, rng, req_texts, marker_texts)
 
 
+def valid_name_py(y):
+    """PEP 508 identifier: letters, digits, - _ . ; first and last are letters or digits"""
+    alnum = lambda c: c < 128 and chr(c).isalnum()
+    return bool(y) and all(alnum(c) or c in b"-_." for c in y) and alnum(y[0]) and alnum(y[-1])
+
+
+def shrink_name(ctx, x):
+    """delete characters while the name stays in the grammar and CanonPackageName still misbehaves"""
+    def bad(y):
+        if not valid_name_py(y):
+            return False
+        o = parse_sx(ctx.impl("canon_name", [sx(y)])[0])
+        o2 = parse_sx(ctx.impl("canon_name", [sx(o)])[0])
+        return o != canon_py(y) or o2 != o
+    cur = x
+    changed = True
+    while changed and len(cur) > 1:
+        changed = False
+        for k in range(len(cur)):
+            y = cur[:k] + cur[k + 1:]
+            if bad(y):
+                cur = y
+                changed = True
+                break
+    return cur
+
+
 def check_names(ctx, rng, ref):
     n = ctx.scale(3000, 60000)
     names = [G.arbitrary_name(rng) for _ in range(n)]
@@ -240,12 +285,13 @@ def check_names(ctx, rng, ref):
     spec = ctx.model("spec_canon", [sx(x) for x in names])
     outs = [parse_sx(x) for x in impl]
     again = [parse_sx(x) for x in ctx.impl("canon_name", [sx(o) for o in outs])]
-    valid = [all(chr(c).isalnum() and c < 128 or c in b"-_." for c in x) for x in names]
+    valid = [valid_name_py(x) for x in names]
     pk = None
     if ref.available():
         idx = [i for i, x in enumerate(names) if valid[i]]
         ans = ref.ask([{"k": "canon", "s": s8(names[i])} for i in idx])
         pk = {i: a["r"].encode("latin-1") for i, a in zip(idx, ans)}
+    reported = 0
     for i, (x, o, sp, o2) in enumerate(zip(names, outs, spec, again)):
         if not valid[i]:
             ctx.count("name:outside-grammar")
@@ -254,15 +300,26 @@ def check_names(ctx, rng, ref):
         sp = parse_sx(sp)
         if any(c in b"-_." for c in x) and any(65 <= c <= 90 for c in x):
             ctx.nontriv(("name", x))
-        if o != sp:
-            ctx.violation("CanonPackageName differs from packaging's canonicalize_name (spec)", sx(x), observed=sx(o), required=sx(sp))
-        if o2 != o:
-            ctx.violation("CanonPackageName is not idempotent on a valid name", sx(x), observed=sx(o2), required=sx(o))
+        bad = (o != sp) or (o2 != o) or (pk is not None and pk[i] != o)
         if pk is not None and pk[i] != sp:
             ctx.divergence("spec_vs_packaging:canon", sx(x), sx(pk[i]), sx(sp))
-        if pk is not None and pk[i] != o:
-            ctx.violation("CanonPackageName differs from packaging.utils.canonicalize_name", sx(x), observed=sx(o), required=sx(pk[i]))
-    ctx.sample({"kind": "canon_name", "input": s8(names[0]), "output": s8(outs[0])})
+        if bad and reported < 20:
+            reported += 1
+            if reported <= 3:
+                x = shrink_name(ctx, x)
+                o = parse_sx(ctx.impl("canon_name", [sx(x)])[0])
+                o2 = parse_sx(ctx.impl("canon_name", [sx(o)])[0])
+                sp = canon_py(x)
+            if o != sp:
+                ctx.violation("CanonPackageName differs from packaging's canonicalize_name", {"kind": "canon_name", "arg": sx(x), "text": s8(x)},
+                              observed=s8(o), required=s8(sp))
+            if o2 != o:
+                ctx.violation("CanonPackageName is not idempotent on a valid name", {"kind": "canon_name", "arg": sx(x), "text": s8(x)},
+                              observed=s8(o2), required=s8(o))
+        elif bad:
+            ctx.violation("CanonPackageName differs from packaging's canonicalize_name or is not idempotent", sx(x), observed=sx(o), required=sx(sp))
+    k = next((i for i, x in enumerate(names) if valid[i] and b"_" in x and any(65 <= c <= 90 for c in x)), 0)
+    ctx.sample({"kind": "canon_name", "input": s8(names[k]), "output": s8(outs[k])})
 
 
 def check_requirements(ctx, rng, ref):
@@ -270,7 +327,7 @@ def check_requirements(ctx, rng, ref):
     reqs = [G.gen_req(rng) for _ in range(n)]
     spec = [parse_sx(x) for x in ctx.model("spec_req", [sx(r) for r in reqs])]
     texts = [s[0] for s in spec]
-    impl, _ = ctx.correspond("pep508", [sx(t) for t in texts])
+    impl, _ = ctx.correspond("pep508", [sx(t) for t in texts], compare=same_split)
     pk = None
     if ref.available():
         govals = [parse_sx(x) for x in impl]
@@ -325,22 +382,14 @@ def spec_tables_from_go(queries, valid, sat):
     return out
 
 
-def check_markers(ctx, rng, ref, env, env_json):
-    n = ctx.scale(5000, 100000)
-    trees, extras = [], []
-    for i in range(n):
-        realistic = rng.random() < 0.5
-        trees.append(G.gen_tree(rng, rng.choice([0, 1, 1, 2, 2, 3]), realistic))
-        extras.append(G.gen_extras_request(rng))
-    for t, e in G.FIXED_MARKERS:
-        trees.append(t)
-        extras.append(list(e))
-    n = len(trees)
-    printed = [parse_sx(x) for x in ctx.model("spec_print", [sx([t, G.wsp(rng, 0.2)]) for t in trees])]
+def eval_markers(ctx, ref, env, env_json, trees, extras, wts):
+    """Run every side on the given marker trees: extracted printer, Go (parser tree and value, 8 repetitions;
+    guarded edge through the resolver), extracted model on Go's PEP 440 tables, extracted spec on packaging's
+    (or Go's) specifier table, packaging itself. Returns one record per case; records nothing on ctx."""
+    printed = [parse_sx(x) for x in ctx.model("spec_print", [sx([t, w]) for t, w in zip(trees, wts)])]
     texts = [p[0] for p in printed]
     tabs = ctx.impl("pep440_tables", [sx(t) for t in texts])
     tabv = [parse_sx(t) for t in tabs]
-
     # spec oracle: Specifier(op+rhs).contains(lhs) for every version-typed comparison of the case
     queries = []
     for t in trees:
@@ -355,92 +404,207 @@ def check_markers(ctx, rng, ref, env, env_json):
     valids, sats = [], []
     for tv in tabv:
         valids.append({k: bool(b) for k, b in tv[0]})
-        sats.append({(G.OPS[o - 1], s, c): r for o, s, c, r in tv[1]})
+        sats.append({(G.OPS[o - 1], s_, c): r for o, s_, c, r in tv[1]})
     if ref.available():
         ans = ref.ask([{"k": "spec", "q": [[o, s8(r), s8(l)] for o, r, l in q]} for q in queries])
         spec_res = [a["r"] for a in ans]
     else:
-        spec_res = [spec_tables_from_go(q, v, s) for q, v, s in zip(queries, valids, sats)]
+        spec_res = [spec_tables_from_go(q, v, s_) for q, v, s_ in zip(queries, valids, sats)]
     spec_tabs = [[[G.OP_NUM[o], r, l, res] for (o, r, l), res in zip(q, rs)] for q, rs in zip(queries, spec_res)]
-
     # the C03 interface assumed by C16_marker_partial (hypothesis sat_agree), checked on this run's tables
     c03_bad = []
-    for q, rs, v, s, text in zip(queries, spec_res, valids, sats, texts):
+    for q, rs, v, s_ in zip(queries, spec_res, valids, sats):
         bad = None
         for (o, r, l), res in zip(q, rs):
             if v.get(r) and v.get(l) and res in (0, 1):
-                got = s.get((o, r, l))
+                got = s_.get((o, r, l))
                 if got != res:
-                    bad = "%s%s contains %s: Go %s, packaging %s" % (o, s8(r), s8(l), {0: "false", 1: "true", 2: "rejects the constraint", 3: "panics"}.get(got, got), bool(res))
+                    bad = "%s%s contains %s: Go %s, packaging %s" % (
+                        o, s8(r), s8(l), {0: "false", 1: "true", 2: "rejects the constraint", 3: "panics"}.get(got, got), bool(res))
         c03_bad.append(bad)
-        if bad:
-            ctx.count("c03-interface-mismatch")
-
     full = ["(" + sx(t) + " " + sx(e) + " " + tb[1:] for t, e, tb in zip(texts, extras, tabs)]
-    impl, model = ctx.correspond("marker", full)
-    eimpl, emodel = ctx.correspond("marker_edge", full)
+    impl, model = ctx.impl("marker", full), ctx.model("marker", full)
+    eimpl, emodel = ctx.impl("marker_edge", full), ctx.model("marker_edge", full)
     spec = [parse_sx(x) for x in ctx.model("spec_eval", [
         "(" + sx(t) + " " + sx(e) + " " + sx(st) + " " + sx(tv[0]) + ")" for t, e, st, tv in zip(trees, extras, spec_tabs, tabv)])]
-
-    pk = None
+    pk = [None] * len(trees)
     if ref.available():
         pk = ref.ask([{"k": "marker", "s": s8(t), "extras": [s8(e) for e in ex], "env": env_json} for t, ex in zip(texts, extras)])
+    out = []
+    for i in range(len(trees)):
+        out.append(dict(tree=trees[i], extras=extras[i], text=texts[i], wf=bool(printed[i][1]), case=full[i],
+                        impl=impl[i], model=model[i], eimpl=eimpl[i], emodel=emodel[i], spec=spec[i][0], dom=bool(spec[i][1]),
+                        pk=pk[i], c03_bad=c03_bad[i], valid=valids[i],
+                        spec_tab={(o, r, l): res for (o, r, l), res in zip(queries[i], spec_res[i])}))
+    return out
 
-    shown = 0
+
+def judge_marker(c, env):
+    """findings of one evaluated marker case: (kind, what, known id or None, observed, required)"""
+    out = []
+    if not c["wf"]:
+        return out
+    inp = sx([c["text"], c["extras"]])
+    if '"oom"' not in c["model"] and c["impl"] != c["model"]:
+        out.append(("divergence:marker", "model and Go disagree on the parsed marker or its value", None, c["impl"], c["model"]))
+    if '"oom"' not in c["emodel"] and c["eimpl"] != c["emodel"]:
+        out.append(("divergence:marker_edge", "model and Go disagree on the guarded edge", None, c["eimpl"], c["emodel"]))
+    go, ed, sp = go_outcome(c["impl"]), edge_outcome(c["eimpl"]), spec_outcome(c["spec"])
+    if go[0] in ("panic", "nondet", "hookmismatch") or ed[0] in ("panic", "inconsistent", "grapherr"):
+        out.append(("violation", "marker evaluation panics or is nondeterministic", None, c["impl"] + " / " + c["eimpl"], "a value or an error"))
+        return out
+    if ed != go:
+        out.append(("violation", "the guarded edge is not followed exactly when the marker evaluates to true "
+                    "(resolver vs parseMarker/Eval)", None, c["eimpl"], c["impl"][:200]))
+    if c["pk"] is not None:
+        a = c["pk"]
+        pko = ("invalid", None) if not a.get("ok") else (("err", None) if a.get("undef") else ("ok", a["val"]))
+        if pko != sp:
+            out.append(("divergence:spec_vs_packaging:marker", "the Gallina spec and packaging disagree", None, json.dumps(a), sx(c["spec"])))
+    if go != sp:
+        cls = ("F-C16-8" if c["c03_bad"] else None) if c["dom"] else classify(c["tree"], c["extras"], env, c["valid"], c["spec_tab"])
+        what = ("dependency guarded by the marker is followed (%s) but packaging %s" % (
+            "error" if go[0] != "ok" else ("yes" if go[1] else "no"),
+            "fails to evaluate" if sp[0] != "ok" else ("says true" if sp[1] else "says false")))
+        if c["dom"]:
+            what += " [inside the domain of C16_marker_partial]"
+        if cls == "F-C16-8":
+            what += " [" + c["c03_bad"] + "]"
+        if c["impl"] != c["model"]:
+            cls = None      # never attribute a hit to a known class when the code left the pinned model
+        out.append(("violation", what, cls, c["impl"][:300], sx(c["spec"])))
+    return out
+
+
+def shrink_candidates(tree, extras):
+    """smaller variants of a marker case: a direct subtree, white space removed, one extra dropped"""
+    out = []
+    if tree[0] in (1, 2):
+        out += [(tree[1], extras), (tree[3], extras)]
+    elif tree[0] == 3:
+        out.append((tree[2], extras))
+    bare = strip_ws(tree)
+    if bare != tree:
+        out.append((bare, extras))
+    for k in range(len(extras)):
+        out.append((tree, extras[:k] + extras[k + 1:]))
+    if tree[0] in (1, 2):
+        for (l, _) in shrink_candidates(tree[1], [])[:3]:
+            out.append(([tree[0], l, tree[2], tree[3]], extras))
+        for (r, _) in shrink_candidates(tree[3], [])[:3]:
+            out.append(([tree[0], tree[1], tree[2], r], extras))
+    return out
+
+
+def strip_ws(tree):
+    if tree[0] == 0:
+        return [0, b"", b"", b"", b"", tree[5]]
+    if tree[0] in (1, 2):
+        return [tree[0], strip_ws(tree[1]), b"", strip_ws(tree[3])]
+    return [3, b"", strip_ws(tree[2]), b""]
+
+
+def shrink_marker(ctx, ref, env, env_json, case, key):
+    """delta-debugging on the structured form: keep a smaller case while it still shows a finding with the same key"""
+    cur = case
+    for _ in range(12):
+        cands = shrink_candidates(cur["tree"], cur["extras"])
+        if not cands:
+            break
+        res = eval_markers(ctx, ref, env, env_json, [t for t, _ in cands], [e for _, e in cands], [b""] * len(cands))
+        nxt = None
+        for c in res:
+            if any((k, kn) == key for k, _, kn, _, _ in judge_marker(c, env)):
+                nxt = c
+                break
+        if nxt is None:
+            break
+        cur = nxt
+    return cur
+
+
+def marker_input(c):
+    return {"kind": "marker", "text": s8(c["text"]), "extras": [s8(e) for e in c["extras"]],
+            "tree": sx(c["tree"]), "arg": sx([c["text"], c["extras"]])}
+
+
+def record_marker(ctx, ref, env, env_json, c, shrink_budget):
+    for kind, what, known, observed, required in judge_marker(c, env):
+        if kind.startswith("divergence:"):
+            small = c
+            if shrink_budget[0] > 0:
+                shrink_budget[0] -= 1
+                small = shrink_marker(ctx, ref, env, env_json, c, (kind, known))
+            f = [x for x in judge_marker(small, env) if x[0] == kind][0]
+            if sum(1 for d in ctx.divergences if d["case_kind"] == kind[len("divergence:"):]) < 50:
+                ctx.divergence(kind[len("divergence:"):], json.dumps(marker_input(small)), f[3], f[4])
+            else:
+                ctx.count("divergences-not-listed:" + kind[len("divergence:"):])
+        elif known is not None:
+            known_hit(ctx, known, what, marker_input(c), observed, required)
+            ctx.count("known-class:" + known)
+        else:
+            small = c
+            if shrink_budget[0] > 0:
+                shrink_budget[0] -= 1
+                small = shrink_marker(ctx, ref, env, env_json, c, (kind, known))
+            f = [x for x in judge_marker(small, env) if x[0] == kind and x[2] is None][0]
+            ctx.violation(f[1], marker_input(small), observed=f[3], required=f[4])
+
+
+def check_markers(ctx, rng, ref, env, env_json):
+    n = ctx.scale(5000, 100000)
+    trees, extras = [], []
+    if ctx.replay:
+        # failing inputs of the replayed run first
+        for v in (ctx.replay.get("violations") or []):
+            inp = v.get("input")
+            if isinstance(inp, dict) and inp.get("kind") == "marker" and inp.get("tree"):
+                trees.append(parse_sx(inp["tree"]))
+                extras.append([e.encode("latin-1") for e in inp.get("extras", [])])
+    for t, e in G.FIXED_MARKERS:
+        trees.append(t)
+        extras.append(list(e))
     for i in range(n):
-        text, tree, ex = texts[i], trees[i], extras[i]
-        if not printed[i][1]:
+        realistic = rng.random() < 0.5
+        trees.append(G.gen_tree(rng, rng.choice([0, 1, 1, 2, 2, 3]), realistic))
+        extras.append(G.gen_extras_request(rng))
+    wts = [G.wsp(rng, 0.2) for _ in trees]
+    cases = eval_markers(ctx, ref, env, env_json, trees, extras, wts)
+    ctx.count("corr:marker", len(cases))
+    ctx.count("corr:marker_edge", len(cases))
+    shown = 0
+    budget = [6]
+    for c in cases:
+        if not c["wf"]:
             ctx.count("marker:not-wf")
             continue
-        go = go_outcome(impl[i])
-        ed = edge_outcome(eimpl[i])
-        sp = spec_outcome(spec[i][0])
-        dom = bool(spec[i][1])
-        ctx.count("marker:in-domain" if dom else "marker:outside-domain")
+        if '"oom"' in c["model"]:
+            ctx.skipped_oom += 1
+        go, sp = go_outcome(c["impl"]), spec_outcome(c["spec"])
+        ctx.count("marker:in-domain" if c["dom"] else "marker:outside-domain")
         ctx.count("marker:go-" + go[0])
-        atoms = G.tree_atoms(tree)
-        if (len(atoms) >= 2 or ex) and sp[0] == "ok":
-            ctx.nontriv(("marker", text, tuple(ex)))
-        if go[0] in ("panic", "nondet", "hookmismatch") or ed[0] in ("panic", "inconsistent", "grapherr"):
-            ctx.violation("marker evaluation panics or is nondeterministic", sx([text, ex]), observed=impl[i] + " / " + eimpl[i])
-            continue
-        if ed != go:
-            ctx.violation("the guarded edge is not followed exactly when the marker evaluates to true "
-                          "(resolver vs parseMarker/Eval)", sx([text, ex]), observed=eimpl[i], required=impl[i][:200])
-        if pk is not None:
-            a = pk[i]
-            if not a.get("ok"):
-                pko = ("invalid", None)
-            elif a.get("undef"):
-                pko = ("err", None)
-            else:
-                pko = ("ok", a["val"])
-            if pko != sp:
-                ctx.divergence("spec_vs_packaging:marker", sx([text, ex]), json.dumps(a), sx(spec[i][0]))
-        if go != sp:
-            cls = ("F-C16-8" if c03_bad[i] else None) if dom else classify(tree, ex, env, valids[i], {(o, r, l): res for (o, r, l), res in zip(queries[i], spec_res[i])})
-            same_as_model = impl[i] == model[i]
-            what = ("dependency guarded by the marker is followed (%s) but packaging %s" % (
-                "error" if go[0] != "ok" else ("yes" if go[1] else "no"),
-                "fails to evaluate" if sp[0] != "ok" else ("says true" if sp[1] else "says false")))
-            if cls is None or not same_as_model:
-                ctx.violation((what + " [inside the domain of C16_marker_partial]") if dom else what, sx([text, ex]),
-                              observed=impl[i][:300], required=sx(spec[i][0]))
-            else:
-                known_hit(ctx, cls, what + ((" [" + c03_bad[i] + "]") if cls == "F-C16-8" else ""), sx([text, ex]),
-                          impl[i][:300], sx(spec[i][0]))
-                ctx.count("known-class:" + cls)
+        if c["c03_bad"]:
+            ctx.count("c03-interface-mismatch")
+        atoms = G.tree_atoms(c["tree"])
+        if (len(atoms) >= 2 or c["extras"]) and sp[0] == "ok":
+            ctx.nontriv(("marker", c["text"], tuple(c["extras"])))
+        record_marker(ctx, ref, env, env_json, c, budget)
         if shown < 3 and len(atoms) >= 2:
             shown += 1
-            ctx.sample({"kind": "marker", "text": s8(text), "extras": [s8(e) for e in ex], "go": impl[i][:200],
-                        "spec": sx(spec[i][0]), "in_domain": dom})
-    return texts
+            ctx.sample({"kind": "marker", "text": s8(c["text"]), "extras": [s8(e) for e in c["extras"]], "go": c["impl"][:200],
+                        "spec": sx(c["spec"]), "in_domain": c["dom"]})
+    nin, nout = ctx.dist.get("marker:in-domain", 0), ctx.dist.get("marker:outside-domain", 0)
+    if nin < 0.15 * (nin + nout) or ctx.dist.get("marker:go-ok", 0) < 0.3 * (nin + nout):
+        raise lib.BuildError("generator degenerate", "markers in the proved domain: %d of %d; accepted by Go: %d" % (
+            nin, nin + nout, ctx.dist.get("marker:go-ok", 0)))
+    return [c["text"] for c in cases]
 
 
 def check_malformed(ctx, rng, req_texts, marker_texts):
     n = ctx.scale(3000, 60000)
     bad = [G.malformed_req(rng, req_texts[:500]) for _ in range(n)]
-    impl, _ = ctx.correspond("pep508", [sx(b) for b in bad], label="pep508:malformed")
+    impl, _ = ctx.correspond("pep508", [sx(b) for b in bad], label="pep508:malformed", compare=same_split)
     for line in impl:
         ctx.count("malformed-req:" + parse_sx(line)[0].decode())
     badm = [G.malformed_marker(rng, marker_texts[:500]) for _ in range(n)]
